@@ -47,7 +47,9 @@ def equivalent_layers(h, p, L, w=None):
         w_el = numpy.zeros(L)
 
     hstep = (h.max()-h.min())/L
-    alt_bins = numpy.arange(h.min(), h.max(), hstep)
+    # floating point rounding can make arange return L+1 edges; the extra one would
+    # push the top layer(s) into a bin that is never summed
+    alt_bins = numpy.arange(h.min(), h.max(), hstep)[:L]
     ix = numpy.digitize(h, alt_bins)
     for i in range(L):
         ix_tmp = ix==i+1
